@@ -1,6 +1,7 @@
 package worlds
 
 import (
+	"math"
 	"fmt"
 
 	"github.com/bradenaw/juniper/stream"
@@ -16,7 +17,7 @@ import (
 
 func init() {
 	Register(&World{Name: "batch", Episodes: true, Props: []string{"C11"}, Concurrent: true, Timed: true, MaxSteps: 6000, Run: batchWorld})
-	ExpectedProbes["batch"] = []string{"underfilled-by-timer", "full-batch", "final-partial-batch", "close-with-producer-ahead", "next-cancelled-then-retried", "source-error-after-items", "close-before-any-next", "timer-flush-with-waiter"}
+	ExpectedProbes["batch"] = []string{"batchsize-huge", "long-source-abandoned", "source-hands-over-ready-items-without-looking-at-its-context", "underfilled-by-timer", "full-batch", "final-partial-batch", "close-with-producer-ahead", "next-cancelled-then-retried", "source-error-after-items", "close-before-any-next", "timer-flush-with-waiter"}
 }
 
 type batchStep struct {
@@ -31,6 +32,14 @@ func batchWorld(r *R) {
 	unit := 10 * time.Millisecond
 	n := r.Choose(9, "items")
 	batchSize := 1 + r.Choose(5, "batchsize")
+	switch r.Choose(16, "batchsize-edge") { // "batch by time only": a size no batch will ever reach
+	case 14:
+		batchSize = math.MaxInt
+		r.Probe("batchsize-huge")
+	case 15:
+		batchSize = 1 << 60
+		r.Probe("batchsize-huge")
+	}
 	maxWait := time.Duration(1+r.Choose(6, "maxwait")) * unit
 	switch r.Choose(16, "maxwait-edge") { // edge classes: no waiting at all
 	case 14:
@@ -77,7 +86,22 @@ func batchWorld(r *R) {
 	if r.Choose(3, "abandon") == 2 {
 		closeAt = r.Choose(maxNext, "abandon-at")
 	}
-	root := NewCtx(nil, "root")
+	// a source with far more items than the consumer will ever ask for, abandoned early: the
+	// background work has to stop because of Close, not because the source ran dry
+	longSrc := closeAt < maxNext && srcErr == nil && batchSize <= 5 && r.Choose(3, "long-source") == 2
+	if longSrc {
+		r.Probe("long-source-abandoned")
+		for i := n; i < 4000; i++ {
+			items = append(items, 1000+i)
+		}
+		src.Items = items
+		src.DeadLimit = 300
+	}
+	if longSrc || r.Choose(3, "src-ready-blind") == 2 {
+		src.ReadyBlind = true
+		r.Probe("source-hands-over-ready-items-without-looking-at-its-context")
+	}
+	root := RootCtx(r)
 	for i := 0; i < closeAt; i++ {
 		st := batchStep{}
 		switch r.Choose(8, "ctxkind") {
@@ -303,6 +327,12 @@ func batchWorld(r *R) {
 		}
 		s.Close()
 		cs.End(c, 0, true, nil)
+		if src.DeadLimit > 0 && src.DeadPulls > src.DeadLimit {
+			// (each further read after the cancellation is the outcome of a fair coin in the unchanged
+			// library; 300 in a row do not happen)
+			r.Violate("C11", "close/background-work-not-stopped", "Close was called with the producer at item %d of 4000; the source was then read %d more times with the cancelled background context before Close returned (the background work stops when the source runs dry, not because of Close)", delivered, src.DeadPulls)
+			return
+		}
 		if len(src.Closed) != 1 {
 			r.Violate("C11", "source-close-count", "after Close returned the source has been closed %d times", len(src.Closed))
 			return
